@@ -1867,6 +1867,13 @@ class C15(Check):
         if k == "lex":
             return {"op": "lex", "text": case["text"]}
         if k == "toks":
+            # Feature names are upper-cased by the code (str.upper, full Unicode) and by the model (ASCII letters only,
+            # DESIGN §4).  A token stream carrying a non-ASCII letter that has an upper-case form is therefore outside
+            # what the model defines: not compared (counted), still judged by the oracle.
+            for _cls, cps in case["toks"]:
+                if any(cp > 127 and chr(cp).upper() != chr(cp) for cp in cps):
+                    self.no_request += 1
+                    return None
             return {"op": "toks", "toks": case["toks"]}
         if k == "doc":
             return {"op": "doc", "doc": case["doc"], "indent": case["indent"], "rest": case["rest"]}
@@ -1907,7 +1914,7 @@ class C15(Check):
 
     def extra_evidence(self):
         out = dict(self.skips)
-        out["cases-without-model-request:long(oracle only, > %d tokens)" % self.MODEL_LONG_MAX] = self.no_request
+        out["cases-without-model-request:long(oracle only, > %d tokens) or token stream with a non-ASCII cased letter" % self.MODEL_LONG_MAX] = self.no_request
         return {"model_comparison_gaps": out}
 
     # ---- direct oracle
